@@ -35,6 +35,10 @@ KEY_LAWS = {
     "prefixed-one-root": ("((p * One)**n).root(n)", "p * One", "n != 0"),
     "prefixed-one-power": ("(p * One)**n", "p**n * One", ""),
     "dimensionless-quotient-keeps-prefix": ("((p * x) / x).root(1)", "p * One", ""),
+    # both operands carry the very same prefix object (prefixes are interned: code may test `is`)
+    "same-prefix-product": ("(p * x) * (p * y)", "(p * p) * (x * y)", ""),
+    "same-prefix-square": ("(p * x) * (p * x)", "(p * x)**2", ""),
+    "same-prefix-quotient": ("(p * x) / (p * y)", "x / y", ""),
 }
 CORE = ["measured.si.Meter", "measured.si.Second", "measured.si.Gram", "measured.iec.Bit",
         "measured.iec.Byte", "measured.si.Watt", "measured.us.Foot", "measured.si.Hertz",
@@ -389,6 +393,10 @@ def tasks_for(tier: str) -> List[Tuple]:
         for pb in ((10, 10, 10), (0, 10, 10), (10, 0, 10), (2, 2, 2)):
             for lname in KEY_LAWS:
                 tasks.append(("key", lname, bases, pb))
+        for pb in ((0, 0, 10), (0, 0, 2)):
+            for lname in KEY_LAWS:
+                if lname.startswith("same-prefix"):
+                    tasks.append(("key", lname, bases, pb))
     tasks += [("exp", 10), ("exp", 2)]
     pexprs = prefix_exprs(tier)
     units = CORE if tier == "thorough" else CORE[:10]
